@@ -137,17 +137,22 @@ WID = ('option', 'wid')
 ATTRS_W = dict(ATTRS_ID)
 ATTRS_W['__wbs'] = ('own', WID)
 WRITES = {'__parent': 'with_par', '__wbs': 'with_own', '__children': 'with_kids'}
+# which heap fields a translated method writes (checked against its own translation: spec key `writes`); a caller that
+# loops over a heap list needs it to know that the list it walks stays as it is (pylite.live_iteration_guard)
+OWNER_ONLY = {'_attach': ['__wbs'], '_detach': ['__wbs']}
 
 SPECS += [
     # Task._attach(wbs) / Task._detach(): the owner of a whole subtree
     dict(file='task.py', cls='Task', func='_attach', coq_name='src_attach', heap='h', state='h', obj_attrs=ATTRS_W,
          obj_writes=WRITES, params={'self': ('self', 'obj'), 'wbs': ('wbs', WID), 'h': ('h', 'heap')},
          signature=[('h', 'heap'), ('self', 'obj'), ('wbs', WID)], ret='unit',
-         recursive=True, loops='fold', method_mutators={'_attach': ('src_attach $F', [WID])}),
+         recursive=True, loops='fold', method_mutators={'_attach': ('src_attach $F', [WID])},
+         writes=['__wbs'], mutator_writes=OWNER_ONLY),
     dict(file='task.py', cls='Task', func='_detach', coq_name='src_detach', heap='h', state='h', obj_attrs=ATTRS_W,
          obj_writes=WRITES, params={'self': ('self', 'obj'), 'h': ('h', 'heap')},
          signature=[('h', 'heap'), ('self', 'obj')], ret='unit',
-         recursive=True, loops='fold', method_mutators={'_detach': ('src_detach $F', [])}),
+         recursive=True, loops='fold', method_mutators={'_detach': ('src_detach $F', [])},
+         writes=['__wbs'], mutator_writes=OWNER_ONLY),
     # the setter of Task.parent: guards, then the writes on both ends of the hierarchy edge
     dict(file='task.py', cls='Task', func='parent', decorator='parent.setter', coq_name='src_set_parent', heap='h', state='h',
          joins=True, obj_attrs=ATTRS_W, obj_writes=WRITES,
@@ -156,7 +161,7 @@ SPECS += [
          params={'self': ('self', 'obj'), 'parent': ('parent', ('option', 'obj')), 'h': ('h', 'heap')},
          signature=[('fuel', 'nat'), ('wroots', OBJS), ('h', 'heap'), ('self', 'obj'), ('parent', ('option', 'obj'))],
          ret='unit', locals={'parent': ('option', 'obj')},
-         method_mutators={'_attach': ('src_attach fuel', [WID])},
+         method_mutators={'_attach': ('src_attach fuel', [WID])}, mutator_writes=OWNER_ONLY,
          calls={'_has_id_intersection': ('apply', 'src_has_id_intersection fuel $H', ('fun', ['obj', OBJS], 'bool', True), [0, 1]),
                 'self.__check_no_links_with': ('apply', 'src_check_no_links_with fuel $H self', ('fun', ['obj'], 'unit', True), [0]),
                 'self.__wbs._root': ('custom', None)}),
@@ -195,7 +200,7 @@ SPECS += [
          params={'self': ('self', 'obj'), 'value': ('value', LOO), 'h': ('h', 'heap')},
          signature=[('fuel', 'nat'), ('h', 'heap'), ('self', 'obj'), ('value', LOO)],
          ret='unit', locals={'value': OBJS}, joins=True,
-         method_mutators={'_attach': ('src_attach fuel', [WID]), '_detach': ('src_detach fuel', [])},
+         method_mutators={'_attach': ('src_attach fuel', [WID]), '_detach': ('src_detach fuel', [])}, mutator_writes=OWNER_ONLY,
          calls=dict(ARG_CALLS, **{'_has_id_intersection': ('apply', 'src_has_id_intersection fuel $H', ('fun', ['obj', OBJS], 'bool', True), [0, 1]),
                                   '.__check_no_links_with': ('recv_fn', 'src_check_no_links_with fuel $H', ('fun', ['obj', 'obj'], 'unit', True), [0])}),
          ignored_calls=('_check_no_nones_in_list',)),
